@@ -71,7 +71,20 @@ def micro_cases(tier):
     return out
 
 
+# the shape of a seeded regression (prefix-header cache shared by shallow copy): every command of the platform has
+# the same options and -include config.h; a.c defines its private macro after the prefix, b.c and the shared
+# #pragma once / guarded headers test it
+_PFX_FILES = [[["src", "a.c"], [["Def", "T0", 1], ["Inc", ["Q", ["g.h"]]], ["Code"]]],
+              [["src", "b.c"], [["Inc", ["Q", ["g.h"]]], ["If", ["Defd", "T0"]], ["Code"], ["Else"], ["Code"], ["Endif"],
+                                ["If", ["Defd", "F0"]], ["Code"], ["Endif"]]],
+              [["src", "g.h"], [["If", ["NDefd", "G"]], ["Def", "G", "E"], ["Code"], ["If", ["Defd", "T0"]], ["Code"], ["Endif"], ["Endif"]]],
+              [["src", "h.h"], [["Once"], ["Def", "F0", 1]]]]
+_PFX_E = lambda f: [["src", f], [], [], [["h.h"]]]
+
 CORPUS_EXTRA = [
+    ["lib", _PFX_FILES, [["P0", [_PFX_E("a.c"), _PFX_E("b.c")]]], 11],
+    ["lib", _PFX_FILES, [["P0", [_PFX_E("b.c"), _PFX_E("a.c"), _PFX_E("b.c")]], ["P1", [_PFX_E("b.c")]]], 12],
+    ["cli", _PFX_FILES, [["P0", [_PFX_E("a.c"), _PFX_E("b.c")]], ["P1", [_PFX_E("b.c")]]], 13],
     # user-defined compiler whose option has a default pass list: a command WITHOUT the option, analysed after
     # one WITH it, must not inherit the other's passes (process-wide config._compilers cache)
     ["cli", [[["src", "a.c"], [["Code"]]], [["src", "b.c"], [["If", ["Eq", "V1", 2]], ["Code"], ["Endif"], ["Code"]]]],
@@ -104,7 +117,8 @@ class C08(Check):
             "-I/-D/-include; kinds: lib (finder.find; full run vs union of single-command runs vs every platform subset vs shuffled order), "
             "cli (codebasin -R summary and codebasin.tree in process for every -p selection, shuffled databases, mixed compilers; a sample "
             "re-run in a fresh subprocess); plus an exhaustive block over 4 entries x 2 micro code bases and a malformed stream. "
-            "non-trivial = the hoisted-Platform or cached-include variant of the model gives a different attribution on the case "
+            "2-4 commands of a platform often share IDENTICAL options with 0-2 -include, and compiled files define/undefine private macros (T0-T2) that other compiled files and shared headers test; "
+            "non-trivial = the hoisted-Platform, cached-include or prefix-header-cache variant of the model gives a different attribution on the case "
             "(i.e. the case can expose state leaking between commands)")
     assumptions = ["paths are absolute, normalised, without symbolic links (C13/C15)",
                    "whitespace flags that MacroFunction.replace mutates in shared trees and the language an out-of-code-base header is first parsed with are modelled out (DESIGN section 5, C08)",
@@ -113,7 +127,7 @@ class C08(Check):
     def __init__(self, tier, seed):
         super().__init__(tier, seed)
         self.sensitive = {}
-        self.dist = {"lib": 0, "cli": 0, "platforms": {}, "commands": {}, "hoisted_differs": 0, "cached_differs": 0,
+        self.dist = {"lib": 0, "cli": 0, "platforms": {}, "commands": {}, "hoisted_differs": 0, "cached_differs": 0, "prefix_cache_differs": 0, "cases_with_same_option_group": 0,
                      "impl_find_calls": 0, "cli_inproc_calls": 0, "cli_subprocess_calls": 0, "malformed": 0, "exhaustive_block": 0}
         self.subproc_budget = 6 if tier == "quick" else 60
 
@@ -276,10 +290,13 @@ class C08(Check):
         return ["Err", "RecursionError" if kind == "OutOfFuel" else kind]
 
     def model_view(self, case, ans):
-        m, s, h, k, sm = ans
+        m, s, h, k, pf, sm = ans
         key = self.key(case)
         hd = (h != m)
         kd = (k != m)
+        pd = (pf != m)
+        if m[0] == "Ok" and pf[0] == "Ok":
+            pd = sorted(map(tuple, self.triples_of(pf))) != sorted(map(tuple, self.triples_of(m)))
         if m[0] == "Ok" and h[0] == "Ok":
             hd = sorted(map(tuple, self.triples_of(h))) != sorted(map(tuple, self.triples_of(m)))
         if m[0] == "Ok" and k[0] == "Ok":
@@ -287,7 +304,16 @@ class C08(Check):
         if key not in self.sensitive:
             self.dist["hoisted_differs"] += int(hd)
             self.dist["cached_differs"] += int(kd)
-        self.sensitive[key] = hd or kd
+            self.dist["prefix_cache_differs"] += int(pd)
+            nsame = 0
+            for _, es in case[2]:
+                seen = {}
+                for e in es:
+                    kk = enc([e[0][:-1], e[1], e[2], e[3]] + e[4:])
+                    seen[kk] = seen.get(kk, 0) + 1
+                nsame += sum(1 for v in seen.values() if v >= 2)
+            self.dist["cases_with_same_option_group"] += int(nsame > 0)
+        self.sensitive[key] = hd or kd or pd
         if m[0] != "Ok":
             return self.err_of(m) if case[0] == "lib" else None
         v = self.predict(case, self.triples_of(m))
